@@ -126,6 +126,7 @@ pub struct Agg {
     pub thread_exits_joined: u64,
     pub late_starts: u64,
     pub clock_jumps: u64,
+    pub panicking_calls: u64,
     pub edges: u64,
     pub edge_offers: u64,
     pub cold_runs: u64,
@@ -191,6 +192,7 @@ impl Agg {
         self.thread_exits_joined += r.thread_exits_joined;
         self.late_starts += r.late_starts;
         self.clock_jumps += r.clock_jumps;
+        self.panicking_calls += r.panicking_calls;
         self.edges += r.edges;
         self.edge_offers += r.edge_offers;
         if r.cold {
@@ -543,7 +545,7 @@ pub fn check(tier_name: &str, base_seed: u64) -> Outcome {
                     Some(j) => j,
                     None => break,
                 };
-                let res = run_batch(&sock, std::slice::from_ref(&job), Duration::from_secs(120));
+                let res = run_batch(&sock, std::slice::from_ref(&job), Duration::from_secs(200));
                 let rec = res.records.into_iter().next().flatten();
                 results.lock().unwrap().push((job, rec, res.note));
             }));
@@ -1049,6 +1051,7 @@ pub fn check(tier_name: &str, base_seed: u64) -> Outcome {
                 "F10_caller_thread_exits_joined_before_token_moves_on": a.thread_exits_joined,
                 "F10_late_starter_after_another_thread_exited": a.late_starts,
                 "F11_simulated_clock_jumps": a.clock_jumps,
+                "F2b_call_made_from_a_destructor_while_the_caller_unwinds": a.panicking_calls,
             },
             "harness_probes": {
                 "calls_overlapping_on_same_object": a.same_obj_overlap,
@@ -1083,7 +1086,7 @@ pub fn check(tier_name: &str, base_seed: u64) -> Outcome {
             "runs_on_long_lived_caller_threads": a.pooled_runs,
             "dense_stage": match &exd {
                 Some(d) => json!({
-                    "what": "the same kind of seeded runs executed in a second build of the harness in which LLVM SanitizerCoverage instruments every basic-block edge of every target crate (regexml, icu, ahash, and any code a change adds); inside library calls one edge in 12 (deterministic per-thread sampling, first 30000 edges of a call) is offered to the scheduler as a preemption point",
+                    "what": "the same kind of seeded runs executed in a second build of the harness in which LLVM SanitizerCoverage instruments every basic-block edge of every target crate (regexml, icu, ahash, and any code a change adds); inside library calls the first 3 executions of an edge by a thread within a run are always offered to the scheduler as a preemption point, later ones sampled one in 32 (deterministic per-thread generator; first 30000 edges of a call)",
                     "runs": d.agg.runs,
                     "call_outcomes_compared_with_reference": d.agg.compared,
                     "basic_block_edges_inside_calls": d.agg.edges,
